@@ -164,8 +164,11 @@ def ensure_facts(features=""):
         info["extract_s"] = round(time.time() - t0, 2)
         # keep the cache bounded: drop all but the 12 most recent fact sets
         sets = sorted(glob.glob(os.path.join(CACHE, "facts", "*")), key=os.path.getmtime)
-        for old in sets[:-40]:
-            shutil.rmtree(old, ignore_errors=True)
+        now = time.time()
+        for old in sets[:-150]:
+            # never evict a set another process may be about to load
+            if now - os.path.getmtime(old) > 1800:
+                shutil.rmtree(old, ignore_errors=True)
         return out, info
     finally:
         fcntl.flock(lock, fcntl.LOCK_UN)
